@@ -824,11 +824,12 @@ def check_C36(rep):
             run_raw(packets, "tlc-simulate")
 
     # code -> spec: every length 0..N with random headers, bytes, ready patterns; non-data headers; delayed
-    lengths = list(range(0, 14)) + ([31, 64] if quick else [31, 32, 33, 64, 127, 255, 256, 1021, 1024])
+    lengths = list(range(0, 14)) + ([31, 64] if quick else [31, 32, 33, 64, 127])
+    long_lengths = [255, 256, 1021, 1023, 1024]      # thorough only, once each (TLC: a few ms per CRC-32 byte)
     reps = 2 if quick else 6
     for rep_i in range(reps):
         packets = []
-        for n in lengths:
+        for n in lengths + (long_lengths if (not quick and rep_i == 0) else []):
             pl = [rng.choice([0, 0xFF, rng.getrandbits(8), rng.getrandbits(8)]) for _ in range(n)]
             h = random_header(rng, 8, n)
             packets.append({"hdr": h, "pl": pl, "rdy": rdy_pattern(rng), "hold": rng.choice([1, 1, 2, 4]),
@@ -880,7 +881,9 @@ def check_C36(rep):
         items.append((recs, {"dut": "DataPacketTransmitter+PacketTransmitter", "origin": "random"}))
 
     rep.add_eval(rxb.cycles)
-    validate_group(rep, SPEC_DIR, "PacketTxTrace", _cfg("PacketTxTrace.cfg.tmpl"), items, classify=classify_tx)
+    # several TLC invocations, each far below the timeout (long payloads are costly in TLC)
+    validate_group(rep, SPEC_DIR, "PacketTxTrace", _cfg("PacketTxTrace.cfg.tmpl"), items, classify=classify_tx,
+                   chunk=400 if quick else 40, timeout=1800)
     nrx = sum(1 for t, _ in items for r in t if r["e"] == "rx")
     ngood = sum(1 for t, _ in items for r in t if r["e"] == "rx" and r["dp_reports"][:1] == ["good"])
     rep.notes.append("packets taken through the real receivers: %d (data packets reported good: %d)" % (nrx, ngood))
